@@ -613,9 +613,21 @@ impl<'a> VisitMut for Norm<'a> {
                 self.loop_no += 1;
                 let n = self.loop_no;
                 self.visit_expr_mut(&mut f.expr);
+                // R-ITER(for-ref), opt-in (`@opt forref`): `for P in &E` is `for P in E.iter()` for every std collection
+                let mut forref = false;
+                if self.spec.opts.contains("forref") {
+                    if let Expr::Reference(r) = &*f.expr {
+                        if r.mutability.is_none() {
+                            let inner = &r.expr;
+                            *f.expr = parse_quote!(#inner.vx_iter());
+                            self.bump("R-ITER(for-ref)");
+                            forref = true;
+                        }
+                    }
+                }
                 // iterator chain in head position
                 let mut chain = Self::is_iter_chain(&f.expr);
-                if let Expr::MethodCall(mc) = &mut *f.expr {
+                if let (false, Expr::MethodCall(mc)) = (forref, &mut *f.expr) {
                     if mc.args.is_empty() && mc.method == "vx_iter" {
                         mc.method = Ident::new("iter", mc.method.span());
                         chain = false;
@@ -862,6 +874,24 @@ impl<'a> VisitMut for Norm<'a> {
                                 }
                             }
                             if !done { self.errors.push(format!("`.or_insert(..)` chain outside R-MAP in {}", self.fname)); }
+                        }
+                        // R-MAP(filter-eta): `o.filter(|&v| f(v))` with `f` a local FnMut -> `vx_opt_filter_with(o, &mut f)`
+                        // (Verus has no closures capturing `&mut`; the shim's body is this very closure)
+                        "filter" if mc.args.len() == 1 => {
+                            if let Some(Expr::Closure(cl)) = mc.args.first() {
+                                if cl.inputs.len() == 1 {
+                                    if let (Pat::Reference(pr), Expr::Call(call)) = (&cl.inputs[0], &*cl.body) {
+                                        if let (Pat::Ident(pi), Expr::Path(fp)) = (&*pr.pat, &*call.func) {
+                                            let arg_is_param = call.args.len() == 1 && ts(&call.args[0]) == pi.ident.to_string();
+                                            if let (true, Some(f)) = (arg_is_param, fp.path.get_ident()) {
+                                                let recv = &mc.receiver;
+                                                replace = Some(parse_quote!(vx_opt_filter_with(#recv, &mut #f)));
+                                                self.bump("R-MAP(filter-eta)");
+                                            }
+                                        }
+                                    }
+                                }
+                            }
                         }
                         "extend" if mc.args.len() == 1 => {
                             mc.method = Ident::new("vx_extend", mc.method.span());
